@@ -212,6 +212,7 @@ C05_MUT = [
     H("c08_usage_255", "c08_secret", "thorough", 1500, "locked secret key material with S2K usage octet 255 (AES128, simple S2K): parser keeps the usage octet, selects the 16-bit checksum (not SHA-1)", SEC_F[:2], "4 concrete header octets + 22 symbolic octets (iv, data)", mem=28),
     H("c08_usage_254", "c08_secret", "thorough", 1500, "same with usage octet 254: octet kept, SHA-1 check selected", SEC_F[:2], "4 concrete header octets + 22 symbolic octets", mem=28),
     H("c08_checksum_decision", "c08_checksum", "quick", 900, "PlainSecretParams::try_from_reader (v4, X25519) on 32 arbitrary secret octets + 2 arbitrary checksum octets: accepted iff checksum == sum of the octets mod 65536 (real arithmetic)", ["types::PlainSecretParams::{try_from_reader,compare_checksum_simple}", "crypto::checksum::SimpleChecksum"], "34 symbolic octets"),
+    H("c08_unlock_usage_255", "c08_unlock", "thorough", 1500, "EncryptedSecretParams::unlock for S2K usage 255 (KDF, CFB, SHA-1 compression modelled): accepted iff the 16-bit sum matches; the unlocked X25519 octets are the protected octets", ["types::EncryptedSecretParams::unlock (MalleableCfb arm)", "types::PlainSecretParams::try_from_reader"], "34 symbolic octets", mem=24),
     H("c08_checksum_trailing", "c08_checksum", "thorough", 900, "same with one trailing octet: refused", ["types::PlainSecretParams::try_from_reader"], "35 symbolic octets"),
     H("c05_details_write_len", "c05_sigmut", "quick", 900, "SignedKeyDetails with one direct-key signature: write_len == octets written (tag + length + body)", ["composed::SignedKeyDetails::{to_writer,write_len}", "packet::Signature::{to_writer,write_len}", "packet::PacketTrait::{to_writer_with_header,write_len_with_header}"], "creation time symbolic"),
     H("c05_keyflags_setters", "c05_sigmut", "quick", 600, "KeyFlags built through every subset of setters: write_len == octets written, RFC bit positions", ["packet::KeyFlags::{default,set_*,to_writer,write_len}"], "10 symbolic booleans"),
@@ -219,7 +220,7 @@ C05_MUT = [
     H("c05_unhashed_push_remove_2octet_len", "c05_sigmut", "quick", 900, "same with a 196-octet subpacket (2-octet subpacket length)", ["packet::Signature::{unhashed_subpacket_push,unhashed_subpacket_insert,unhashed_subpacket_remove}", "packet::Subpacket::write_len"], "original header length symbolic"),
 ]
 PROPS["C05"] = {
-    "inject": [("src/lib.rs", "c05_codec"), ("src/lib.rs", "c17_codec"), ("src/packet/signature/types.rs", "c05_sigmut"), ("src/lib.rs", "c08_secret"), ("src/lib.rs", "c08_checksum")],
+    "inject": [("src/lib.rs", "c05_codec"), ("src/lib.rs", "c17_codec"), ("src/packet/signature/types.rs", "c05_sigmut"), ("src/lib.rs", "c08_secret"), ("src/lib.rs", "c08_checksum"), ("src/lib.rs", "c08_unlock")],
     "mem_gb": 12,
     "level_text": "Bounded model checking of the real parsers/serialisers: for every byte string of the stated lengths the solver "
                   "shows parse/serialise are mutually inverse, write_len equals the octets written and canonical inputs "
